@@ -81,7 +81,7 @@ pub fn check_case(c: &SeqCase, obs: &mut Obs) -> Verdict {
     }
     let (old, new) = (&c.old, &c.new);
     let eq = |i: usize, j: usize| old[i] == new[j];
-    obs.executions = 4;
+    obs.executions = 7;
 
     let ev = match guard(|| run_slices(c)) {
         Ok(e) => e,
@@ -108,6 +108,30 @@ pub fn check_case(c: &SeqCase, obs: &mut Obs) -> Verdict {
         obs.class("fixed large case");
         obs.class(alg_name(c.alg));
         return Verdict::Pass;
+    }
+    // the deadline-taking twins of the entry points, called without a deadline
+    {
+        let twins = guard(|| {
+            let mut a = Recorder::new();
+            algorithms::diff_deadline(alg_of(c.alg), &mut a, &c.old[..], c.old_r(), &c.new[..], c.new_r(), None).unwrap();
+            let mut b = Recorder::new();
+            algorithms::diff_slices_deadline(alg_of(c.alg), &mut b, c.old_slice(), c.new_slice(), None).unwrap();
+            let mut m = Recorder::new();
+            match c.alg % 3 {
+                0 => algorithms::myers::diff_deadline(&mut m, &c.old[..], c.old_r(), &c.new[..], c.new_r(), None).unwrap(),
+                1 => algorithms::patience::diff_deadline(&mut m, &c.old[..], c.old_r(), &c.new[..], c.new_r(), None).unwrap(),
+                _ => algorithms::lcs::diff_deadline(&mut m, &c.old[..], c.old_r(), &c.new[..], c.new_r(), None).unwrap(),
+            }
+            (a.events, shift_events(&b.events, c.or.0, c.nr.0), m.events)
+        });
+        match twins {
+            Ok((a, b, m)) => {
+                if a != ev || b != ev || m != ev {
+                    return Verdict::Fail(format!("{}: diff_deadline(None) {:?} / diff_slices_deadline(None) {:?} / per-module diff_deadline(None) {:?} differ from algorithms::diff {:?}", alg_name(c.alg), a, b, m, ev));
+                }
+            }
+            Err(p) => return Verdict::Fail(format!("{}: the deadline-taking entry points without a deadline: {}", alg_name(c.alg), p)),
+        }
     }
     // the same diff through a range-checked lookup and the per-module entry point
     match guard(|| run_strict_module(c)) {
@@ -233,7 +257,7 @@ impl Prop for C01 {
     type Case = SeqCase;
     const ID: &'static str = "C01";
     fn rule() -> String {
-        "cases = (algorithm, old, new, old_range, new_range); generated by (1) size-ordered enumeration of all pairs over a 3-letter alphabet (full range) and all pairs over a 2-letter alphabet x all in-bounds range pairs, (2) proptest mixture (independent small alphabets, mutate(old), periodic, permutations, unique markers, forced common prefix/suffix; sub-ranges with probability 1/2). Each case is diffed 4 ways (slices+ranges, per-module entry over a range-checked lookup, IdentifyDistinct offset lookups, extracted slices); 1 case in 8 instead passes ONE buffer as both old and new with independent ranges (aliasing) and compares with diffing against an equal copy; a stage of fixed large cases (edit distances in the thousands, 20 000 near-identical items, LCS tables of 360 000+ cells) is judged by validity and replay. Non-trivial = both ranges non-empty and the stream has at least one Equal and at least one change; distinct = distinct serialized case.".into()
+        "cases = (algorithm, old, new, old_range, new_range); generated by (1) size-ordered enumeration of all pairs over a 3-letter alphabet (full range) and all pairs over a 2-letter alphabet x all in-bounds range pairs, (2) proptest mixture (independent small alphabets, mutate(old), periodic, permutations, unique markers, forced common prefix/suffix; sub-ranges with probability 1/2). Each case is diffed 7 ways (slices+ranges, per-module entry over a range-checked lookup, IdentifyDistinct offset lookups, extracted slices, and the three deadline-taking twins called with None); 1 case in 8 instead passes ONE buffer as both old and new with independent ranges (aliasing) and compares with diffing against an equal copy; a stage of fixed large cases (edit distances in the thousands, 20 000 near-identical items, LCS tables of 360 000+ cells) is judged by validity and replay. Non-trivial = both ranges non-empty and the stream has at least one Equal and at least one change; distinct = distinct serialized case.".into()
     }
     fn assumptions() -> Vec<String> {
         vec![
